@@ -24,6 +24,14 @@ async def expect_async(expecter, timeout=None):
     idx = expecter.existing_data()
     if idx is not None:
         return idx
+    if timeout == 0 and not (expecter.spawn.async_pw_transport and
+                             expecter.spawn.async_pw_transport[1].is_closing()):
+        # Nothing to wait for.  wait_for() gives up before the event loop has
+        # had a chance to look at the descriptor, so output that is ready to
+        # be read would go unexamined; examine it the way the blocking call
+        # does (with timeout 0 that never blocks; a transport left from an
+        # earlier call is paused and does not read meanwhile).
+        return expecter.expect_loop(0)
     if not expecter.spawn.async_pw_transport:
         pattern_waiter = PatternWaiter()
         pattern_waiter.set_expecter(expecter)
